@@ -297,6 +297,8 @@ pub fn fault_alphabet(prop: &str, n: usize, len: usize) -> Vec<(Act, Vec<FaultKi
                 v.push((Extend(m), vec![K::IterNext]));
                 v.push((ExtendHint(m, 0), vec![K::IterNext]));
                 v.push((ExtendHint(m, 2), vec![K::IterNext]));
+                v.push((ExtendHint(m, 5), vec![K::IterNext])); // lower bound too high: nothing may be reserved on trust
+                v.push((ExtendHint(m, 6), vec![K::IterNext]));
                 v.push((ExtendPairs(m), vec![K::IterNext]));
             }
             v.push((Fill, vec![K::Clone]));
@@ -565,6 +567,8 @@ pub fn ctor_faults<const N: usize>(prop: &str, rep: &mut Report) {
                 cases.push((Ctor::FromIter(m), FaultKind::IterNext));
                 cases.push((Ctor::FromIterHint(m, 0), FaultKind::IterNext));
                 cases.push((Ctor::FromIterHint(m, 2), FaultKind::IterNext));
+                cases.push((Ctor::FromIterHint(m, 5), FaultKind::IterNext));
+                cases.push((Ctor::FromIterHint(m, 6), FaultKind::IterNext));
             }
             _ => {}
         }
